@@ -69,6 +69,8 @@ type Recording struct {
 	Order   []int // write ids in S order
 	MarkPos map[string][]int
 	TGOf    map[int64]int64 // payload id -> id of the logged transaction that carries it (whole recording)
+	// Destroys: per bucket key, the [start, ack] effect positions of Destroy requests (ack = -1: not acknowledged)
+	Destroys map[string][][2]int
 }
 
 type winfo struct {
@@ -147,6 +149,17 @@ func record(h *hist.History, dir string) (*Recording, error) {
 			continue
 		}
 		rec.MarkPos[f[0]] = append(rec.MarkPos[f[0]], i)
+		if len(f) >= 3 && (f[0] == "DS" || f[0] == "DA") {
+			if rec.Destroys == nil {
+				rec.Destroys = map[string][][2]int{}
+			}
+			if f[0] == "DS" {
+				rec.Destroys[f[2]] = append(rec.Destroys[f[2]], [2]int{i, -1})
+			} else if l := rec.Destroys[f[2]]; len(l) > 0 {
+				l[len(l)-1][1] = i
+			}
+			continue
+		}
 		if len(f) >= 2 {
 			id, err := strconv.Atoi(f[1])
 			if err != nil {
